@@ -352,6 +352,12 @@ def wellformed_twins(n):
     """Well-formed rank/score encodings for an n-team game: list of (label, kwargs)."""
     idx = list(range(n))
     tw = [
+        # per-call options are part of a well-formed call too (0 and ints included)
+        ("tau_int_zero", {"tau": 0}),
+        ("tau_float_zero_with_ranks", {"tau": 0.0, "ranks": [i + 1 for i in idx]}),
+        ("tau_int_with_scores", {"tau": 2, "scores": [n - i for i in idx]}),
+        ("limit_sigma_true", {"limit_sigma": True}),
+        ("limit_sigma_false_tau_float", {"limit_sigma": False, "tau": 0.25}),
         ("scores_int_subclass", {"scores": [Points(10 * (n - i)) for i in idx]}),
         ("ranks_float_subclass_mixed", {"ranks": [Seconds(60.5 + i) if i % 2 == 0 else 70.5 + i for i in idx]}),
         ("ranks_intenum", {"ranks": [Place(1 + i % 13) for i in idx]}),
